@@ -547,6 +547,55 @@ def case_same_text(seed):
     return {"viol": viol, "n": n}
 
 
+def case_hub(seed):
+    """A scope that uses two modules plainly must not change what either of them exports to scopes correlated later."""
+    rng = random.Random(seed)
+    S = seed % 9973
+    a, b = f"ha{S}", f"hb{S}"
+    hub = rng.choice([f"aa_hub{S}", f"hub{S}", f"zz_hub{S}"])
+    late = rng.choice([f"zz_late{S}", f"late{S}", f"ab_late{S}"])
+    files = {}
+    files[a + ".f90"] = f"module {a}\nimplicit none\ntype :: a_t\ninteger :: x\nend type a_t\ninteger :: a_n = 1\ncontains\nsubroutine a_s()\nend subroutine a_s\nend module {a}\n"
+    files[b + ".f90"] = f"module {b}\nimplicit none\ntype :: b_t\ninteger :: y\nend type b_t\ninteger :: b_n = 2\ncontains\nsubroutine b_s()\nend subroutine b_s\nend module {b}\n"
+    hub_where = rng.choice(["module", "procedure"])
+    order = [a, b] if rng.random() < 0.6 else [b, a]
+    if hub_where == "module":
+        files[hub + ".f90"] = f"module {hub}\nuse {order[0]}\nuse {order[1]}\nimplicit none\nend module {hub}\n"
+    else:
+        files[hub + ".f90"] = f"module {hub}\nimplicit none\ncontains\nsubroutine hs()\nuse {order[0]}\nuse {order[1]}\nend subroutine hs\nend module {hub}\n"
+    first, other = order
+    own = rng.random() < 0.5  # the late scope's host has an own entity named like one of the other module's
+    ot, on, os_ = ("b_t", "b_n", "b_s") if other == b else ("a_t", "a_n", "a_s")
+    L = [f"module {late}", "implicit none"] + ([f"type :: {ot}", "integer :: own", f"end type {ot}"] if own else []) + ["contains", "subroutine probe_l()", f"use {first}",
+         f"type({ot}) :: pv", f"namelist /pnl/ {on}" if False else "integer :: dummy", f"call {os_}()", "end subroutine probe_l", f"end module {late}"]
+    files[late + ".f90"] = "\n".join(L) + "\n"
+    base = core.mktemp("vf_c06h_")
+    try:
+        root = os.path.join(base, "src")
+        os.makedirs(root)
+        for n, t in files.items():
+            open(os.path.join(root, n), "w").write(t)
+        st, r = core.run_alone(observe_same_text, {"root": root}, timeout=120)
+    finally:
+        shutil.rmtree(base, ignore_errors=True)
+    if st != "ok":
+        return {"viol": [{"kf": {"kind": "harness_" + st}, "w": {"detail": str(r)[-500:], "seed": seed, "files": files}}], "n": 0}
+    got = r["res"].get("probe_l", {})
+    viol = []
+    want_t = f"{late}::{ot}" if own else "unresolved"
+    obs_t = got.get("type", "absent")
+    if obs_t != want_t:
+        viol.append({"kf": {"kind": "inaccessible_resolved" if "::" in obs_t else "accessible_not_resolved", "entity_kind": "type", "consumer_use_form": "plain_after_hub_used_both",
+                            "probe_where": hub_where, "explained_by_per_statement_use_semantics": False},
+                     "w": {"name": ot, "expected": want_t, "observed": obs_t, "seed": seed, "files": files}})
+    bad_calls = [c for c in got.get("calls", []) if c.endswith("::" + os_)]
+    if bad_calls:
+        viol.append({"kf": {"kind": "inaccessible_resolved", "entity_kind": "sub", "consumer_use_form": "plain_after_hub_used_both", "probe_where": hub_where,
+                            "explained_by_per_statement_use_semantics": False},
+                     "w": {"name": os_, "expected": "unresolved", "observed": bad_calls, "seed": seed, "files": files}})
+    return {"viol": viol, "n": 2}
+
+
 def all_shapes(nprov):
     nodes = nprov + 1
     pairs = [(i, j) for j in range(nodes) for i in range(j)]
@@ -579,7 +628,7 @@ def main():
     if rp:
         w = json.load(open(rp))
         a = w["witness"]["arg"]
-        r = case_same_text(a[1]) if a[0] == "same_text" else case((a[0], frozenset(tuple(e) for e in a[1]), a[2], a[3], a[4], tuple(a[5])))
+        r = case_same_text(a[1]) if a[0] == "same_text" else case_hub(a[1]) if a[0] == "hub" else case((a[0], frozenset(tuple(e) for e in a[1]), a[2], a[3], a[4], tuple(a[5])))
         known = core.load_known(PID)
         bad = [v for v in r["viol"] if core.match_known(known, v["kf"]) is None]
         print("replay:", "VIOLATION" if bad else "held")
@@ -627,11 +676,21 @@ def main():
         for v in r["viol"]:
             v["w"]["arg"] = ["same_text", sd]
             run.violation(v["kf"], v["w"])
+    seeds3 = [run.seed * 104729 + i for i in range(300 if thorough else 60)]
+    for sd, (st, r) in zip(seeds3, core.fork_map(case_hub, seeds3, per_case_fork=False, case_timeout=300)):
+        if st != "ok":
+            run.inconc(f"hub {st}: {str(r)[-300:]}")
+            continue
+        run.case(key=f"hub{sd}", nontrivial=True)
+        run.count("probes_compared_after_hub", r["n"])
+        for v in r["viol"]:
+            v["w"]["arg"] = ["hub", sd]
+            run.violation(v["kf"], v["w"])
     run.extra["module_graph_shapes"] = len(shapes_seen)
     run.extra["exhaustive"] = False
     run.extra["exhaustive_part"] = "all DAG shapes over <=3 provider modules + consumer (72 shapes); decoration and file orders sampled" + (" (all permutations in thorough)" if thorough else "")
     run.max_samples = 2
-    run.finish(floors={"evaluations": 200, "distinct_nontrivial": 60, "probes_compared": 2000, "probes_of_inaccessible_names": 300, "use_forms": 6, "file_orders": 10, "probes_compared_identical_only_text": 100})
+    run.finish(floors={"evaluations": 200, "distinct_nontrivial": 60, "probes_compared": 2000, "probes_of_inaccessible_names": 300, "use_forms": 6, "file_orders": 10, "probes_compared_identical_only_text": 100, "probes_compared_after_hub": 100})
 
 
 if __name__ == "__main__":
